@@ -39,7 +39,7 @@ THEOREMS = ["Mesa.Steps." + t for t in (
     "C05_nested_calls_are_ordinary_calls", "C05_nested_run_is_ordinary_calls",
     "C05_wrapper_delegates_to_step_captured_at_init", "C05_rebinding_step_on_the_instance_stops_the_counter",
     "C05_bodies_are_exactly_the_super_chain", "C05_nested_fuel_is_immaterial",
-    "C05_run_model_is_k_step_calls", "C05_instance_history_is_its_own_ops")]
+    "C05_run_model_is_k_step_calls", "C05_instance_history_is_its_own_ops", "C05_raising_class_body_cuts_the_chain")]
 COUNTS = {"quick": 600, "thorough": 80000}
 EXHAUSTIVE = {"quick": True, "thorough": True}
 TRUSTED = [
@@ -59,7 +59,9 @@ RULE = ("exhaustive: every chain of depth 0-4 with per level {inherits | overrid
         "interleaved step/run/rearm/halt ops and (1 in 8) link / unlink ops that make the bodies of one model step another; "
         "binding of `step` on the instance: exhaustively every chain of depth <= 2 x {plain construction | a subclass __init__ that assigns "
         "self.step = f before super().__init__()} x three op patterns (calls with 0-2 arguments, model._user_step = f, model.step = f, "
-        "del model.step twice), and (1 in 3 random chain scenarios) 1-2 such objects with 4-14 random ops; "
+        "del model.step twice), and (1 in 3 random chain scenarios) 1-2 such objects with 4-14 random ops; class bodies that raise: every "
+        "chain of depth <= 3 x every overriding level as the one whose body raises RuntimeError after its record (calls with 0-2 arguments, "
+        "also after `del model.step`), and 3 in 10 random binding objects; "
         "non-trivial = an overriding chain of >= 2 bodies was executed or run_model made >= 2 calls")
 
 _BASE = None
@@ -133,8 +135,9 @@ def build_mi_class(k, bases, level, classes):
     return ns[f"K{k}"]
 
 
-def build_class(levels):
-    """levels: [(overrides, callsSuper, takesArgs)], most derived first"""
+def build_class(levels, raiser=None):
+    """levels: [(overrides, callsSuper, takesArgs)], most derived first; `raiser`: the depth of the level whose step body raises
+    RuntimeError right after making its record (user code that fails inside a class, possibly between two super() levels)"""
     ns = {"Base": base()}
     src, prev = [], "Base"
     for d in reversed(range(len(levels))):
@@ -145,11 +148,15 @@ def build_class(levels):
         elif ta:
             src.append("    def step(self, *args, **kw):")
             src.append(f"        self._body({d}, args + tuple(kw.values()))")
+            if d == raiser:
+                src.append("        raise RuntimeError('boom in a class body')")
             if cs:
                 src.append("        super().step(*args, **kw)")
         else:
             src.append("    def step(self):")
             src.append(f"        self._body({d}, ())")
+            if d == raiser:
+                src.append("        raise RuntimeError('boom in a class body')")
             if cs:
                 src.append("        super().step()")
         prev = f"L{d}"
@@ -208,7 +215,10 @@ class Impl:
             if c >= len(self.classes):
                 return "bad-op"
             pre = None if w[2] == "-" else int(w[2])
-            cls = self.classes[c]
+            if len(w) > 4:
+                return "bad-op"
+            raiser = int(w[3]) if len(w) == 4 else None
+            cls = self.classes[c] if raiser is None else build_class(self.levels[c], raiser)
             if pre is None:
                 m = cls(1000000)
                 m.frec = []
@@ -225,7 +235,7 @@ class Impl:
                 m = Pre(1000000)
             m.idx, m.calls = -1, self.calls
             self.objs.append(m)
-            self.ostate.append({"pre": pre, "user": None, "rebound": False, "levels": self.levels[c]})
+            self.ostate.append({"pre": pre, "user": None, "rebound": False, "levels": self.levels[c], "raiser": raiser})
             self.trace.append(("bnew", len(self.objs) - 1, pre, m.steps))
             return f"ok obj={len(self.objs) - 1} || {self.ball()}"
         i = int(w[1])
@@ -522,11 +532,24 @@ def binding_scenarios():
                 yield core.Scenario(["scenario steps", fmt_class(list(sh)), f"bnew 0 {pre}"] + pat, {"exhaustive": True, "binding": True})
 
 
+RAISE_PATTERN = ["bstep 0", "bstep 0 3", "bstep 0 1 4", "bdel 0", "bstep 0", "bstep 0 5"]
+
+
+def raising_scenarios():
+    """every chain of depth <= 3 x every level as the one whose body raises (review 3, M17)"""
+    for sh in all_shapes(3):
+        for r in range(len(sh)):
+            if sh[r][0] == "1":
+                yield core.Scenario(["scenario steps", fmt_class(list(sh)), f"bnew 0 - {r}"] + RAISE_PATTERN,
+                                    {"exhaustive": True, "binding": True, "raising": True})
+
+
 def gen_binding_ops(R, L, ncls):
     """1-2 objects whose `step` binding the program plays with, 4-14 ops"""
     nobj = R.choice([1, 1, 2])
     for _ in range(nobj):
-        L.append(f"bnew {R.randrange(ncls)} {R.choice(['-', '-', '-', '1', '2', '50'])}")
+        L.append(f"bnew {R.randrange(ncls)} {R.choice(['-', '-', '-', '1', '2', '50'])}"
+                 + (f" {R.randrange(0, 4)}" if R.random() < 0.3 else ""))
     for _ in range(R.randrange(4, 15)):
         i = R.randrange(nobj)
         k = R.random()
@@ -543,6 +566,7 @@ def gen_binding_ops(R, L, ncls):
 def builtin_corpus():
     res = [pattern(list(sh), w) for sh in all_shapes() for w in range(4)]
     res += list(binding_scenarios())
+    res += list(raising_scenarios())
     for g in all_class_graphs(3):
         # every choice of which classes define step (those that do call super), plus one assignment with
         # argument-taking and non-super-calling bodies
@@ -662,10 +686,18 @@ def generate(rng, tier, count):
 # oracle
 
 
-def expected_chain_ok(levels, rec, args, out):
-    """structural clauses on the bodies one call executed (depth order, super links, arguments)"""
+def expected_chain_ok(levels, rec, args, out, raiser=None):
+    """structural clauses on the bodies one call executed (depth order, super links, arguments); `raiser`: the level whose
+    body raises RuntimeError after its record - it is the last body to run, and the call leaves with that exception"""
     bad = []
     depths = [d for d, _, _ in rec]
+    if raiser is not None and raiser in depths:
+        if depths[-1] != raiser:
+            bad.append(f"raise: bodies {depths[depths.index(raiser) + 1:]} ran after the body of level {raiser} had raised")
+        if out != "err Runtime":
+            bad.append(f"raise: the body of level {raiser} raised RuntimeError but the call ended with `{out}`")
+    elif out == "err Runtime":
+        bad.append(f"raise: the call ended with RuntimeError although no raising body ran (bodies {depths})")
     over = [d for d, l in enumerate(levels) if l[0]]
     if any(d not in over for d in depths):
         bad.append(f"chain: a level that does not define step ran: {depths}")
@@ -740,7 +772,7 @@ def oracle(sc, obs):
             if target is None:
                 if frec:
                     bad.append(f"delegate: a program function ran although object {i} has none")
-                bad += expected_chain_ok(st["levels"], rec, tuple(args), out)
+                bad += expected_chain_ok(st["levels"], rec, tuple(args), out, st.get("raiser"))
             elif rec or frec != [(target, s0 + 1, tuple(args))] or out != ("err Runtime" if target >= 50 else "ok"):
                 bad.append(f"delegate: step({args}) on object {i} should run the function {target} once with the arguments unchanged; "
                            f"bodies {rec}, functions {frec}, {out}")
@@ -852,6 +884,8 @@ def tags(sc, obs):
             yield "bind:" + ev[2] + ("" if ev[2] != "bdel" else "")
         elif ev[0] == "bstep":
             st = ev[8]
+            if st.get("raiser") is not None and any(d == st["raiser"] for d, _, _ in ev[4]):
+                yield "bind:class-body-raises" + (":between-super-levels" if 0 < len(ev[4]) - 1 and st["levels"][st["raiser"]][1] else "")
             how = ("rebound" if st["rebound"] else "wrapped") + (
                 "-user-fn" if st["user"] is not None else "-init-fn" if st["pre"] is not None else "-class-chain")
             yield "bind:call-" + how + (":TypeError" if ev[3] == "err Type" else ":RuntimeError" if ev[3] != "ok" else "") + (":args" if ev[2] else "")
